@@ -1,19 +1,22 @@
 import DaskModel.Model.Sched
 /-
-K12 (part) `Callbacks`: `dask/callbacks.py` after the repair of defect #1, transliterated.
+K12 (part) `Callbacks`: `dask/callbacks.py` after the repairs of defect #1 (commit 64c9a31) and of the
+re-used `add_callbacks` object (second repair: activation and the `_added` bookkeeping happen in `__enter__`,
+one entry per entry), transliterated.
 
 Python                                             Lean
 ------                                             ----
 a callback (the 5-tuple `cb._callback`)            `Cb = Nat` (the harness interns the tuples)
 `Callback.active` (a class-level set)              `St.active : List Cb` (membership semantics, `sadd`)
-`add_callbacks(*cbs)` object                       its `_added` list; those created by the history itself: `St.cms` (index = handle)
-`Callback._cms` (per object stack of its managers) `St.objCms : Map (List (List Cb))` keyed by object id, head = top
+an `add_callbacks(*cbs)` object bound to a name    `Mgr` = (`callbacks`, `_added` stack, head = top), `St.cms : Map Mgr` keyed by handle
+`Callback._cms` (per object stack of its managers) `St.objCms : Map (List (List Cb))` keyed by object id: the `_added` entry of each manager, head = top
 two `Callback` objects built from the same functions  two object ids with the same `Cb` (equal tuples)
 `cb.unregister()` of an inactive callback          `Err.keyError`
-`cb.__exit__()` without a matching `__enter__`     `Err.indexError` (AttributeError/IndexError in Python)
+`__exit__()` without a matching `__enter__`        `Err.indexError` (`pop from empty list` / AttributeError in Python)
 a scheduler call with `callbacks=None`             `Op.get`: uses (a copy of) `active`, restores it (`local_callbacks`)
 
-`step`/`run` is the flat machine driven by arbitrary (also ill-bracketed) histories; `exec` runs a
+`step`/`run` is the flat machine driven by arbitrary (also ill-bracketed) histories: building a manager,
+entering it (later, again, in another order than built) and leaving it are separate operations; `exec` runs a
 well-bracketed program (`with` statements nest) on the same primitives.
 Import-free of Mathlib (linked into the native driver).
 -/
@@ -22,9 +25,14 @@ open Dask.Sched (Map sadd srem Err)
 
 abbrev Cb := Nat
 
+/-- an `add_callbacks` object -/
+structure Mgr where
+  cbs : List Cb                 -- `self.callbacks`
+  stack : List (List Cb) := []  -- `self._added`: one entry per `__enter__`, head = most recent
+
 structure St where
   active : List Cb := []
-  cms : List (List Cb) := []
+  cms : Map Mgr := []
   objCms : Map (List (List Cb)) := []
 
 /-- `dict.fromkeys(cbs)`: first occurrences, in order -/
@@ -32,7 +40,7 @@ def dedupAux : List Cb → List Cb → List Cb
   | acc, [] => acc.reverse
   | acc, x :: xs => if x ∈ acc then dedupAux acc xs else dedupAux (x :: acc) xs
 
-/-- `add_callbacks.__init__`: `_added = [c for c in dict.fromkeys(cbs) if c not in Callback.active]` -/
+/-- `[c for c in dict.fromkeys(cbs) if c not in Callback.active]` -/
 def newOnes (cbs : List Cb) (active : List Cb) : List Cb := (dedupAux [] cbs).filter (fun c => !(active.contains c))
 
 /-- `Callback.active.update(cbs)` -/
@@ -46,7 +54,8 @@ def stackOf (s : St) (c : Cb) : List (List Cb) := (s.objCms.get? c).getD []
 inductive Op where
   | enterObj (o : Nat) (c : Cb)  -- `obj.__enter__()` for the object `o` whose tuple is `c`
   | exitObj (o : Nat)            -- `obj.__exit__(None, None, None)`
-  | enterCm (cbs : List Cb)      -- `h = add_callbacks(*cbs); h.__enter__()`   (handle = number of managers created before)
+  | buildCm (h : Nat) (cbs : List Cb)  -- `h = add_callbacks(*cbs)` (a fresh name `h`)
+  | enterCm (h : Nat)            -- `h.__enter__()`
   | exitCm (h : Nat)             -- `h.__exit__(None, None, None)`
   | register (c : Cb)
   | unregister (c : Cb)
@@ -54,8 +63,8 @@ inductive Op where
   | getWith (cbs : List Cb)      -- a scheduler call with `callbacks=[…]`
   deriving Repr
 
-/-- `add_callbacks(*cbs)` -/
-def cmInit (cbs : List Cb) (s : St) : St × List Cb :=
+/-- `add_callbacks.__enter__` for a manager with callbacks `cbs`: new `active` and the `_added` entry -/
+def cmEnter (cbs : List Cb) (s : St) : St × List Cb :=
   let added := newOnes cbs s.active
   ({ s with active := activate cbs s.active }, added)
 
@@ -63,19 +72,30 @@ def cmInit (cbs : List Cb) (s : St) : St × List Cb :=
 def step (op : Op) (s : St) : Except Err (St × Option (List Cb)) :=
   match op with
   | .enterObj o c =>
-    let (s1, added) := cmInit [c] s
+    let (s1, added) := cmEnter [c] s
     .ok ({ s1 with objCms := s1.objCms.set o (added :: stackOf s o) }, none)
   | .exitObj o =>
     match stackOf s o with
     | [] => .error .indexError
     | added :: rest => .ok ({ s with objCms := s.objCms.set o rest, active := discardAll added s.active }, none)
-  | .enterCm cbs =>
-    let (s1, added) := cmInit cbs s
-    .ok ({ s1 with cms := s1.cms ++ [added] }, none)
-  | .exitCm h =>
-    match s.cms[h]? with
+  | .buildCm h cbs =>
+    match s.cms.get? h with
+    | some _ => .error .badChoice
+    | none => .ok ({ s with cms := s.cms.set h { cbs := cbs } }, none)
+  | .enterCm h =>
+    match s.cms.get? h with
     | none => .error .badChoice
-    | some added => .ok ({ s with active := discardAll added s.active }, none)
+    | some m =>
+      let (s1, added) := cmEnter m.cbs s
+      .ok ({ s1 with cms := s1.cms.set h { m with stack := added :: m.stack } }, none)
+  | .exitCm h =>
+    match s.cms.get? h with
+    | none => .error .badChoice
+    | some m =>
+      match m.stack with
+      | [] => .error .indexError
+      | added :: rest =>
+        .ok ({ s with cms := s.cms.set h { m with stack := rest }, active := discardAll added s.active }, none)
   | .register c => .ok ({ s with active := sadd c s.active }, none)
   | .unregister c => if c ∈ s.active then .ok ({ s with active := srem c s.active }, none) else .error (.keyError .result)
   | .get => .ok (s, some s.active)
@@ -95,6 +115,8 @@ inductive Prog where
   | seq (p q : Prog)
   | withCm (cbs : List Cb) (body : Prog)     -- `with add_callbacks(*cbs): body`
   | withObj (c : Cb) (body : Prog)           -- `with cb: body`
+  | build (h : Nat) (cbs : List Cb)          -- `h = add_callbacks(*cbs)`
+  | withH (h : Nat) (body : Prog)            -- `with h: body`  (a manager built earlier; may be open already)
   | register (c : Cb)
   | unregister (c : Cb)
   | get
@@ -110,7 +132,7 @@ def exec : Prog → St → Except Err (St × List (List Cb))
       | .error e => .error e
       | .ok (s2, l2) => .ok (s2, l1 ++ l2)
   | .withCm cbs body, s =>
-    let (s1, added) := cmInit cbs s
+    let (s1, added) := cmEnter cbs s
     match exec body s1 with
     | .error e => .error e
     | .ok (s2, l) => .ok ({ s2 with active := discardAll added s2.active }, l)
@@ -124,6 +146,20 @@ def exec : Prog → St → Except Err (St × List (List Cb))
         match step (.exitObj c) s2 with
         | .error e => .error e
         | .ok (s3, _) => .ok (s3, l)
+  | .build h cbs, s =>
+    match step (.buildCm h cbs) s with
+    | .error e => .error e
+    | .ok (s1, _) => .ok (s1, [])
+  | .withH h body, s =>
+    match step (.enterCm h) s with
+    | .error e => .error e
+    | .ok (s1, _) =>
+      match exec body s1 with
+      | .error e => .error e
+      | .ok (s2, l) =>
+        match step (.exitCm h) s2 with
+        | .error e => .error e
+        | .ok (s3, _) => .ok (s3, l)
   | .register c, s => .ok ({ s with active := sadd c s.active }, [])
   | .unregister c, s => if c ∈ s.active then .ok ({ s with active := srem c s.active }, []) else .error (.keyError .result)
   | .get, s => .ok (s, [s.active])
@@ -133,6 +169,8 @@ def Prog.unregisters : Prog → Cb → Prop
   | .seq p q, x => p.unregisters x ∨ q.unregisters x
   | .withCm _ b, x => b.unregisters x
   | .withObj _ b, x => b.unregisters x
+  | .build _ _, _ => False
+  | .withH _ b, x => b.unregisters x
   | .register _, _ => False
   | .unregister c, x => c = x
   | .get, _ => False
@@ -142,6 +180,8 @@ def Prog.registers : Prog → Cb → Prop
   | .seq p q, x => p.registers x ∨ q.registers x
   | .withCm _ b, x => b.registers x
   | .withObj _ b, x => b.registers x
+  | .build _ _, _ => False
+  | .withH _ b, x => b.registers x
   | .register c, x => c = x
   | .unregister _, _ => False
   | .get, _ => False
